@@ -418,6 +418,28 @@ def rule_v1(chk: Check, ix: Index):
                  f"after substituting the flag and erasing print-only statements the verbose and non-verbose versions of `{q}` are "
                  f"different programs: non-verbose has `{diff[0].strip()[:70]}` where verbose has `{diff[1].strip()[:70]}` — turning "
                  f"tracing on changes what the parser does{extra}")
+    # helpers that erased log statements are allowed to call must themselves be transparent: they look, format and return;
+    # they do not catch exceptions (an error swallowed in the trace surfaces later in a different form), write state or loop
+    for q in ("Parser.showpeek",):
+        g = ix.funcs.get(q)
+        chk.count("V1-verbose-erasure")
+        if g is None:
+            chk.fail("V1-verbose-erasure", f"{q}:transparent", repo.SUBHEADER, f"trace helper {q} vanished")
+            continue
+        why = ""
+        for n in own_nodes(g.node):
+            if isinstance(n, (ast.Try, ast.While, ast.For, ast.With)):
+                why = f"it contains a `{type(n).__name__.lower()}` statement"
+            if isinstance(n, (ast.Assign, ast.AugAssign)) and any(isinstance(t, (ast.Attribute, ast.Subscript))
+                                                                 for t in (n.targets if isinstance(n, ast.Assign) else [n.target])):
+                why = f"it writes state (`{norm_stmt(n)[:40]}`)"
+            if isinstance(n, ast.Call):
+                name = norm_stmt(n.func)
+                if name not in ("self._tokenizer.peek", "repr", "str", "len", "format") and not name.endswith((".format", ".join")):
+                    why = f"it calls `{name}`"
+        chk.require(not why, "V1-verbose-erasure", f"{q}:transparent", g.where,
+                    f"the trace helper must only peek and format, but {why}: with verbose=True the parse can then take a different "
+                    f"course (e.g. a TokenError swallowed here leaves the token generator finished, and the rule sees 'unexpected EOF')")
     chk.floor("V1-verbose-erasure", 5)
     # the flag is only ever read, stored by the constructors and forwarded by the entry points
     for q, f in sorted(ix.funcs.items()):
